@@ -287,6 +287,22 @@ def _optional_rules(ctx, prog, c):
                     return "fresh"
                 if verdicts:
                     return "fresh?" if any(v == "fresh?" for v in verdicts) else None
+        if isinstance(r, dict) and r.get("k") == "call" and depth < 2 and not r.get("args") and r.get("this") is not None and fmt(ir.unwrap(r["this"])) == pname:
+            # `other.helper()`: a const member of the same class whose every return is fresh w.r.t. its own object
+            nm = short(r.get("name") or "")
+            helpers = [h for h in prog.methods_of(CN) if h.has_cfg and h.name == nm and not h.params and h.flags.get("const")]
+            verdicts = []
+            for h in helpers:
+                for _, _, e in h.roots():
+                    x = e["expr"]
+                    if x.get("k") == "return" and x.get("e") is not None:
+                        verdicts.append(fresh(x["e"], "this", depth + 1))
+            if verdicts and all(v in ("fresh", "empty") for v in verdicts) and "fresh" in verdicts:
+                return "fresh"
+            if verdicts:
+                return "fresh?" if any(v == "fresh?" for v in verdicts) else None
+        if isinstance(r, dict) and r.get("k") == "lit" and r.get("t") == "null":
+            return "empty"
         if isinstance(r, dict) and r.get("k") == "call":
             nm = short(r.get("name") or "")
             if nm in ("reset", "clear") and not r.get("args"):
@@ -298,6 +314,8 @@ def _optional_rules(ctx, prog, c):
                     # *other  (operator* of optional or builtin deref of other.data_)
                     s = fmt(a)
                     if pname and (s == "(*%s)" % pname or s == "(*%s.%s)" % (pname, short(dq))):
+                        return "fresh"
+                    if pname == "this" and s in ("(*%s)" % short(dq), "(*this->%s)" % short(dq), "(*(*this))", "(**this)"):
                         return "fresh"
                 return "fresh?"
         if isinstance(r, dict) and r.get("k") == "cond":
